@@ -46,6 +46,8 @@ def validate_trace(ck, doc, label, sites=None):
             e = doc["events"][p["reject"] - 1]
             ck.violation("trace-reject", {"trace": label, "line": p["reject"], "clause": p["clause"], "event": e, "header": doc["header"]},
                          key={"cache": doc["header"].get("kind", label).split(":")[0], "clause": p["clause"], "site": e.get("site", e["op"])})
+    if cons[0].get("model_divergences"):
+        ck.bump("faithful_model_divergences_traces", cons[0]["model_divergences"])
     return t, cons[0]
 
 
@@ -102,6 +104,10 @@ def main():
             for b in o["bad"]:
                 ck.violation("arraymap-replay", dict(b, mode=mode, constants=[t["L"], t["B"], t["init"], t["max"]]),
                              key={"site": "arraymap", "fields": ",".join(b["fields"])})
+            if o["faithful_model_divergences"]:
+                ck.bump("faithful_model_divergences_replay", o["faithful_model_divergences"])
+                if not ck.extra.get("divergence_sample"):
+                    ck.note("divergence_sample", o["divergence_samples"][:1])
     tasks = None
 
     # ---- code -> spec: assemble cache histories --------------------------------
@@ -183,6 +189,8 @@ def main():
     cons = [p for p in t.printed if "consumed" in p]
     if not cons or cons[0]["consumed"] != len(events):
         ck.machinery_failure("dict trace not fully consumed: %s of %d" % (cons, len(events)))
+    if cons[0].get("model_divergences"):
+        ck.bump("faithful_model_divergences_traces", cons[0]["model_divergences"])
     for p in t.printed:
         if "reject" in p:
             e = events[p["reject"] - 1]
@@ -221,7 +229,7 @@ def main():
     gi = next(i for i, e in enumerate(ev) if e["op"] == "get" and not e["miss"])
     ev[gi]["ret"] += 7
     si = next(i for i, e in enumerate(ev) if e["op"] == "set")
-    ev[si]["lt"] += 1
+    ev[si]["v"] += 9
     ci = next(i for i, e in enumerate(ev) if e["op"] == "carried")
     ev[ci]["v"] += 5
     tfb = os.path.join(ck.wd, "trace-corrupt.json")
@@ -232,6 +240,10 @@ def main():
     if not ({gi, si, ci} <= set(rej)):
         ck.machinery_failure("corrupted trace lines not rejected: %s (wanted %s)" % (rej, (gi, si, ci)))
     ck.note("corrupted_traces_rejected", 3)
+    div = ck.extra.get("faithful_model_divergences_replay", 0) + ck.extra.get("faithful_model_divergences_traces", 0)
+    if div:
+        print("NOTE property=C09 the implementation's cache layout / growth / flush points differ from the faithful model of arraymap.py "
+              "in %d cases (informational: C09 only requires that a cache never serves a wrong value)" % div, flush=True)
     ck.exhaustive = True
     ck.assumptions = [
         "numba compiles the source that the interpreted (NUMBA_DISABLE_JIT=1) run executes (cache histories are observed in interpreted mode; arraymap itself and the trajectories are also exercised compiled)",
